@@ -228,7 +228,23 @@ pub fn a_frame() -> impl Strategy<Value = AFrame> {
             .prop_map(|(p, ack, tail)| AFrame::Settings(p, ack, tail)),
         3 => (prop_oneof![3 => Just(0u32), 1 => 1u32..9], prop_oneof![Just(0u32), Just(15663105u32), 1u32..0x7fff_ffff], proptest::bool::weighted(0.2)).prop_map(|(s, i, r)| AFrame::WindowUpdate(s, i, r)),
         3 => ((0u32..20), h2::priority_spec()).prop_map(|(s, p)| AFrame::Priority(s, p)),
-        3 => (h2::request_block(), h2::headers_framing(), proptest::bool::weighted(0.1)).prop_map(|(b, mut f, zero)| { if zero { f.stream = 0; } AFrame::Headers(b, f) }),
+        3 => (h2::request_block(), h2::headers_framing(), proptest::bool::weighted(0.1), proptest::option::weighted(0.25, any::<u8>())).prop_map(|(mut b, mut f, zero, mix)| {
+            if zero {
+                f.stream = 0;
+            }
+            // a quarter of the blocks carry a regular field between their pseudo-headers (the fingerprint lists the pseudo-headers
+            // in the order in which they appear, wherever they stand)
+            if let Some(sel) = mix {
+                let np = b.fields.iter().filter(|x| x.name.starts_with(':')).count();
+                if np >= 2 {
+                    if let Some(pos) = b.fields.iter().position(|x| !x.name.starts_with(':')) {
+                        let fld = b.fields.remove(pos);
+                        b.fields.insert(1 + sel as usize % (np - 1), fld);
+                    }
+                }
+            }
+            AFrame::Headers(b, f)
+        }),
         1 => Just(AFrame::Ping),
         1 => ((1u32..9), proptest::collection::vec(any::<u8>(), 0..40)).prop_map(|(s, d)| AFrame::Data(s, d)),
         1 => (10u8..=255, 0u32..4, proptest::collection::vec(any::<u8>(), 0..20)).prop_map(|(t, s, d)| AFrame::Unknown(t, s, d)),
